@@ -221,6 +221,16 @@ def _(m):
     apischema.type_name("Renamed")(m.DC)
 
 
+@op("type_name:Cat")
+def _(m):
+    apischema.type_name("Feline")(m.Cat)
+
+
+@op("discriminator:Base+Cat")
+def _(m):
+    apischema.discriminator("type", {"kitty": m.Cat})(m.Base)
+
+
 @op("schema:DC")
 def _(m):
     apischema.schema(description="a DC", min_props=1)(m.DC)
@@ -292,9 +302,12 @@ def observations(m) -> List[Tuple[str, Callable[[], Any]]]:
     add("S(Color)", lambda: S(m.Color, m.Color.RED))
     for d in [{"lo": 1, "hi": 0}, {"lo": 0, "hi": 1}, {"lo": "1"}]:
         add(f"D(Val,{d})", lambda d=d: D(m.Val, d))
-    for d in [{"x": 1}, {"x": 1, "type": "Cat"}, {"type": "Dog"}]:
+    for d in [{"x": 1}, {"x": 1, "type": "Cat"}, {"type": "Dog"}, {"type": "Feline"}, {"type": "kitty", "x": 2}]:
         add(f"D(Base|Cat|Dog,{d})", lambda d=d: D(Union[m.Cat, m.Dog], d))
     add("S(Cat)", lambda: S(Union[m.Cat, m.Dog], m.Cat(1)))
+    add("S(Base:Dog)", lambda: S(m.Base, m.Dog(2)))
+    add("D(Base)", lambda: D(m.Base, {"type": "Cat", "x": 3}))
+    add("D(Base,Feline)", lambda: D(m.Base, {"type": "Feline", "x": 3}))
     add("D(U1|U2)", lambda: D(Union[m.U1, m.U2], {"u": 1}))
     add("D(U2|U1)", lambda: D(Union[m.U2, m.U1], {"u": 1}))
     for d in [{"n": 1}, {"n": 6, "items": [1, 2]}, {"n": "9"}]:
